@@ -214,8 +214,21 @@ def build_queries(tier, mutate=None):
                     replay=rp, operands=(x, dv, None), family="multipleOf exact: int (<= 2**53) / power-of-two float incl. overflow fallback"))
         qs.append(Q("mul/d%d/int53-pow2float/w-overflow" % d, base + [z3.fpIsInf(z3.fpDiv(nk.RNE, z3.fpSignedToFP(nk.RNE, x.bv, F), dv.fp))],
                     "sat", backend="cvc5", role="witness", timeout=120, family="witness"))
-        # b4 (float instance % integer divisor) needs fp.rem on binary64: `unknown` after 900 s in cvc5 and z3; its verdict
-        # is therefore outside the claim (exception freedom of that branch is decided by the noraise query above).
+        # b4: float instance |x| < 2**63, integer divisor 0 < d <= 2**53.  Bit-blasting fp.rem on binary64 is `unknown` after 900 s in
+        # cvc5 and z3, so the code's `float % int` is modelled by the definition of fmod on the IEEE fields (numkern.mod); the query
+        # still decides which operator the code applies to these kinds and what it does with the result.
+        x, wx = nk.mk("float", "x")
+        dv, wd = nk.mk("int64", "d")
+        uf4 = lambda a, b: z3.Bool("ratio_is_integer")          # noqa: E731
+        ev = nk.evaluate(cls, fn, kw, dv, x, src=src, exact_float_rem=True, ratio_is_integer=uf4)
+        s_, m_, e_ = fields(x.bits)
+        integral = float_is_integral_fields(x.bits)
+        mag = z3.If(e_ >= 0, m_ << z3.ZeroExt(48, e_), z3.LShR(m_, z3.ZeroExt(48, -e_)))
+        spec_mult = z3.And(integral, z3.URem(mag, dv.bv) == 0)
+        base = [wx, wd, dv.bv > 0, dv.bv <= 2 ** 53, e_ <= 10]
+        qs.append(Q("mul/d%d/float63-int53/exact" % d, base + [ev.fails == spec_mult], "unsat", backend="z3", timeout=300,
+                    replay=rp, operands=(x, dv, None), family="multipleOf exact: float (< 2**63) % int (<= 2**53), fmod by definition"))
+        qs.append(Q("mul/d%d/float63-int53/w-fails" % d, base + [ev.fails], "sat", backend="z3", role="witness", timeout=120, family="witness"))
         # b5: float / float whenever the division itself is exact
         x, wx = nk.mk("float", "x")
         dv, wd = nk.mk("float", "d")
